@@ -28,7 +28,7 @@ ALG = {'qubit': 'qubit', 'fermion': 'fermion', 'majorana': 'majorana', 'boson': 
        'quad': ['quad', [1, 1, 0, 1]]}
 
 TRUSTED = [
-    'C02: numpy.isclose(a, b) is modelled as |a-b| <= atol + rtol*|b| over exact numbers (defaults read from numpy at run time); numpy.amax/absolute as max of exact absolute values',
+    'C02: numpy.isclose(a, b) is modelled as |a-b| <= atol + rtol*|b| over exact numbers (defaults read from numpy at run time; MajoranaOperator.__eq__ calls it both ways for shared terms); numpy.amax/absolute as max of exact absolute values',
     'C02: CPython set iteration order is taken from the running interpreter (the harness passes the observed order to the Model); the theorems quantify over every order',
 ]
 ASSUMPTIONS = [
@@ -352,7 +352,7 @@ def maj_eq_exact(ta, tb, atol, rtol):
         if t in ta and t in tb:
             r1, m1 = np_close_exact(ta[t], tb[t], atol, rtol)
             r2, m2 = np_close_exact(tb[t], ta[t], atol, rtol)
-            coded = coded and r1
+            coded = coded and (r1 or r2)      # HEAD tests numpy.isclose both ways
             stmt = stmt and (r1 or r2)
             ok = ok and m1 and m2
             window = window or (r1 != r2)
@@ -952,11 +952,6 @@ def classify(v):
     if v.get('stream') == 'is-identity' and w.startswith('is_identity differs'):
         if case.get('stored_zero') or not case.get('normal_form', True):
             return 'F02b'
-    if v.get('stream') == 'majorana-eq' and case.get('window') and (
-            w in ('majorana == is not symmetric', 'majorana == differs from the symmetric per-term statement',
-                  'majorana == differs from OFV.Spec.C02.MajEq')):
-        if w == 'majorana == is not symmetric' or (det.get('implementation') is False):
-            return 'F02c'
     if v.get('stream') == 'commutes-with' and w.startswith('commutes_with differs') and case.get('single') \
             and case.get('stored_zero') and det.get('implementation') is False and det.get('spec_commute') is True:
         return 'F02d'
@@ -974,10 +969,6 @@ def probe_known(ctx, k):
             a = of.QubitOperator('X0', 0.0) + of.QubitOperator(())
             return of.utils.operator_utils.is_identity(a) is False \
                 or of.utils.operator_utils.is_identity(of.QubitOperator((), 0.0)) is True
-        if k['id'] == 'F02c':
-            A = of.MajoranaOperator((0,), 1e6)
-            B = of.MajoranaOperator((0,), 1e6 + 10.0001)
-            return bool(A == B) != bool(B == A)
         if k['id'] == 'F02d':
             Z = of.MajoranaOperator((0,), 0.0)
             W = of.MajoranaOperator((0, 1))
